@@ -914,13 +914,15 @@ def _direct(ctx):
                         break
                     t = '*/*' if g.group(1) == '*' else g.group(1)
                     rngs.append(tuple(t.split('/')) + (float(g.group(3) or 1),))
+                if rngs is not None and len({x[:2] for x in rngs}) < len(rngs):
+                    rngs = None               # the same range twice with different weights: RFC 7231 does not say which one counts
                 if rngs is not None:
                     qj = _quality(JSON, rngs)
-                    if ct is not None and '*' not in ct and ';' not in ct and '/' in ct and _quality(ct.lower(), rngs) == 0 and '+' not in (accept or ''):
+                    if ct is not None and ct == ct.lower() and '*' not in ct and ';' not in ct and '/' in ct and _quality(ct, rngs) == 0 and '+' not in (accept or ''):
                         what = f'the error is labelled {ct}, which the client does not accept ({accept!r})'
-                    elif qj > 0 and got != 'json' and all('/' in k and ';' not in k and '*' not in k for k, _ in hs):
+                    elif qj > 0 and got != 'json' and all('/' in k and ';' not in k and '*' not in k and k == k.lower() for k, _ in hs):
                         others = ([XML_T, XML_A] if xml_on else []) + [k for k, _ in hs if k not in (FORM, MULTI)]
-                        if all(_quality(k.lower(), rngs) <= qj for k in others):
+                        if all(_quality(k, rngs) <= qj for k in others):
                             what = f'JSON has the highest quality ({qj}) among the offered types but the choice is {got}'
         except Exception as e:  # noqa
             got = 'raised ' + type(e).__name__
